@@ -1333,6 +1333,9 @@ def controller_sessions(prop: str, rng: random.Random, n: int, res: Result) -> l
                         continue
                     k_ = rng.randint(1, min(3, len(ns)))
                     targets = rng.sample(ns, k_)
+                    if rng.random() < 0.12:
+                        # a node that does not exist, after some that do: refused as a whole
+                        targets = targets + [G.fresh_node_id(rng, t)]
                     op = {"op": "updattrs", "nodes": targets, "attrs": {"score": [rng.randrange(100) for _ in targets]}}
                     call = lambda: ctl.update_node_attrs(op["nodes"], op["attrs"])  # noqa: E731
                 elif kind == "paint":
@@ -2367,6 +2370,17 @@ def run(prop: str, tier: str, seed: int, intensify: bool = False) -> Result:
         for i in range(0, len(seqs), chunk):
             jobs.append((prop, seeds[0], 0, nops,
                          [{"spec": EXH_SPEC, "ops": [{"sym": c} for c in q]} for q in seqs[i:i + chunk]]))
+    if prop == "C02":
+        # one LONG history: more than a thousand cheap edits, undone to the very first state and
+        # redone — "never forgetting" has no length limit
+        n_long = 1040 if tier == "quick" else 2600
+        long_ops = ([{"op": "updattrs", "n": 1 + (i % 3), "attrs": {str(F.K_SCORE): i % 97}} for i in range(n_long)]
+                    + [{"op": "undo"}] * (n_long + 3) + [{"op": "redo"}] * 25)
+        long_spec = {"cfg": "pos", "ndim": 3, "with_ids": True, "scale": None,
+                     "nodes": [{"id": 1, "time": 0, "pos": 1, "tid": 1, "lin": 1}, {"id": 2, "time": 1, "pos": 2, "tid": 1, "lin": 1},
+                               {"id": 3, "time": 2, "pos": 3, "tid": 1, "lin": 1}],
+                     "edges": [{"u": 1, "v": 2}, {"u": 2, "v": 3}]}
+        jobs.append((prop, seeds[0], 0, nops, [{"spec": long_spec, "ops": long_ops}]))
     exh = 0
     if tier == "thorough" and prop in ("C01", "C03", "C04", "C05", "C06", "C11", "C20") and not intensify:
         cases = exhaustive_cases()
